@@ -269,7 +269,8 @@ def r_cks_reader(model, rep, rule_id="R-CKS-DEFASSIGN", format_only=False):
     rep.ob("R-CKS-LEGACY", "Checksums.deserialize:unknown-length-rejected", bool(rej), site=cx.site(f.node),
            msg="" if rej else "a bare digest whose length is none of 32/40/64 must be rejected (ValueError)")
     # the store is unconditional within the iteration
-    ng = [g for g in facts.non_gate_guards(e) if not (g[0][0] == "call" and g[0][1][0] == "attr" and g[0][1][2] == "has_section")]
+    own = facts.own_guards(cx, e, kinds=("raise",))
+    ng = [g for g in facts.non_gate_guards(e) if g in own and not (g[0][0] == "call" and g[0][1][0] == "attr" and g[0][1][2] == "has_section")]
     rep.ob(rule_id, "Checksums.deserialize:every-entry-stored", not ng, site=cx.site(e.lineno),
            msg="" if not ng else "entries are only stored under %s" % [T.show(g[0]) for g in ng])
 
